@@ -1,4 +1,4 @@
 SPECIFICATION Spec
-CONSTANTS MaxSize = 6  MaxSmall = 6  Emit = TRUE
+CONSTANTS MaxSize = 6  MaxSmall = 6  AgedMax = 4  Emit = TRUE
 INVARIANTS EmitCase
 CHECK_DEADLOCK FALSE
